@@ -34,6 +34,9 @@ class SendFault:
         if k == "EPIPE":
             return BrokenPipeError(errno.EPIPE, "Broken pipe")
         if k == "ECONNRESET":
+            # Linux: the first send after an RST fails with ECONNRESET, every later one with EPIPE
+            if self.fired > 1:
+                return BrokenPipeError(errno.EPIPE, "Broken pipe")
             return ConnectionResetError(errno.ECONNRESET, "Connection reset by peer")
         if k == "TIMEOUT1":
             return TimeoutError("timed out")
